@@ -1,21 +1,19 @@
-SPECIFICATION MCFairSpec
+SPECIFICATION MCSpec
 CONSTANTS
   NAuthor = 2
   NLog = 1
   MaxSeq = 1
-  Caps = {99}
+  Caps = {0, 1, 2, 3, 99}
   StoreChoices <- EmptyOrFull
   LogsChoices <- LogsAll
   MaxMut = 1
   MutKinds = {"prune", "delete"}
-  Faults = FALSE
+  Faults = TRUE
   Defect_SendBlocksRecv = TRUE
   Fix_DoneOnce = TRUE
   Fix_StreamClosure = TRUE
 INVARIANTS
   TypeOK
   C21_NoSpin
-  C21_NeverStuck
-PROPERTIES
-  C21_Terminates
-CHECK_DEADLOCK TRUE
+  C21_NoOtherStuck
+CHECK_DEADLOCK FALSE
